@@ -315,7 +315,17 @@ def shared_state_fn(env):
         # them until the next yield point is harmless in a profiling run)
         if cache['n'] != len(fns):
             refresh()
-        out = [list(d.values()) for d in cache['objs']]
+        out = []
+        for d in cache['objs']:
+            vals = list(d.values())
+            for i, v in enumerate(vals):
+                # a container an object holds on to (a dict of options, say) is
+                # compared by content: its identity never changes
+                if type(v) is dict:
+                    vals[i] = list(v.items())
+                elif type(v) is list or type(v) is set:
+                    vals[i] = list(v)
+            out.append(vals)
         out.append([len(d[name]) if cont else d[name] for d, name, cont in watched_globals
                     if name in d])
         out.append([len(d) for d in mod_dicts])
